@@ -169,6 +169,23 @@ func wireFrom(h []WireEv, q int) []WireEv {
 	return out
 }
 
+func truncLog(h []WireEv, r int) []WireEv {
+	var out []WireEv
+	for _, x := range h {
+		if x.K == "mark" {
+			if x.S <= r {
+				if x.E > r {
+					x.E = r
+				}
+				out = append(out, x)
+			}
+		} else if x.Q <= r {
+			out = append(out, x)
+		}
+	}
+	return out
+}
+
 func NewCoreRun(sch *Schedule) *CoreRun {
 	c := &CoreRun{sch: sch}
 	nvb := num(sch.Cfg["NVB"])
@@ -407,6 +424,10 @@ func (c *CoreRun) exec(l map[string]any) string {
 		case "rb":
 			res.Rollback, res.F = true, uint64(q)
 			from = num(l["r"])
+			if a == "ReopenRet" {
+				// the vBucket failed over: what the old branch had beyond r is gone (Trunc in Core.tla)
+				c.slog[vb-1] = truncLog(c.slog[vb-1], from)
+			}
 		}
 		if _, _, ok := c.r.S.ParkedArgs(th); !ok {
 			return th + " is not parked"
@@ -503,6 +524,12 @@ func (c *CoreRun) exec(l map[string]any) string {
 			return t + " is not in metadata.Save"
 		}
 		c.r.S.Release(t, rel)
+	case "SaveRemark":
+		t := str(l["t"])
+		if c.r.S.Parked()[t] != "save.remark" {
+			return t + " is not at save.remark"
+		}
+		c.r.S.Release(t, nil)
 	case "CloseCall":
 		c.r.S.Emit(Ev{"ev": "CloseCall"})
 		c.r.Dcp.Close()
